@@ -52,6 +52,9 @@ mod slate;
 pub mod slate_versions;
 pub mod slatepack;
 mod types;
+/// Verification hooks (deterministic simulation seams), off by default
+#[cfg(feature = "verif_hooks")]
+pub mod verif;
 
 pub use crate::error::Error;
 pub use crate::slate::{ParticipantData, Slate, SlateState};
